@@ -92,7 +92,7 @@ def run(tier):
     r = vf.tlc_must_pass('LengthPrefix.tla', 'LengthPrefixMC.cfg' if quick else 'LengthPrefixMCt.cfg', 'lenp',
                          sink=lambda b: cases.append(b[3:]) if b.startswith('C;;') else None, heap='16g')
     v.add_tlc(r)
-    res = vf.run_scripts('lenp', [[c] for c in cases], 'C13', name='lenp')
+    res = vf.run_scripts('lenp', [[c] for c in cases], 'C13', name='lenp', flavours=3)
     v.exec_problems(res, 'lenp')
     v.cov['traces_validated_against_impl'] += len(cases)
     v.cov['evaluations'] += res.checked
@@ -101,7 +101,7 @@ def run(tier):
     ops = sorted(set(c.split(' ')[0] for c in cases))
     v.notes['e1'] = dict(cases=len(cases), per_op={o: sum(1 for c in cases if c.startswith(o + ' ')) for o in ops})
     rnd = random.Random(vf.seed())
-    vf.trace_flow(v, 'LengthPrefixTrace.tla', 'LengthPrefixTrace.cfg', 'lenp', e2(rnd, 64 if quick else 500, 1200 if quick else 6000), 'lenptrace')
+    vf.trace_flow(v, 'LengthPrefixTrace.tla', 'LengthPrefixTrace.cfg', 'lenp', e2(rnd, 64 if quick else 500, 1200 if quick else 6000), 'lenptrace', flavours=3)
     v.cov['rule'] = ('E0/E1: all cases of the enumerated family (buffer states up to MaxSize, chunk lists up to MaxChunks, length table, capacities around the length, '
                      'fragment sizes); distinct_nontrivial = cases whose prescribed outcome is not a refusal. E2: random states and lengths up to several thousand octets.')
     v.cov['exhaustive'] = True
